@@ -111,3 +111,85 @@ func runRecursion(t *tape.Tape, cfg sim.Config) (res sim.Result) {
 	}
 	return
 }
+
+// Class start-function: the guest spins inside its START-SECTION function, i.e. during InstantiateModule:
+// there is no module handle yet, the instance is not registered.  Causes: the instantiation's context is
+// cancelled / times out, or the runtime is closed from another goroutine.  InstantiateModule must return.
+func runStartSpin(t *tape.Tape, cfg sim.Config) (res sim.Result) {
+	bg := context.Background()
+	var rc wazero.RuntimeConfig
+	if cfg.Engine == "interpreter" {
+		rc = wazero.NewRuntimeConfigInterpreter()
+	} else {
+		rc = wazero.NewRuntimeConfigCompiler()
+	}
+	rt := wazero.NewRuntimeWithConfig(bg, rc.WithCloseOnContextDone(true))
+	defer rt.Close(bg)
+	cause := t.Choose(3) // 0 cancel, 1 deadline, 2 runtime close
+	k := int64(1 + t.Choose(50))
+	var calls int64
+	var abandon atomic.Bool
+	ctx, cancel := context.WithCancel(bg)
+	if cause == 1 {
+		ctx, cancel = context.WithTimeout(bg, time.Duration(1+t.Choose(20))*time.Millisecond)
+	}
+	defer cancel()
+	fired := make(chan struct{})
+	_, err := rt.NewHostModuleBuilder("env").NewFunctionBuilder().WithFunc(func() {
+		if abandon.Load() {
+			panic("abandoned by the simulator")
+		}
+		if n := atomic.AddInt64(&calls, 1); n == k {
+			switch cause {
+			case 0:
+				cancel()
+			case 1:
+				<-ctx.Done()
+			case 2:
+				rt.Close(bg)
+			}
+			close(fired)
+		}
+	}).Export("h").Instantiate(bg)
+	if err != nil {
+		panic(err)
+	}
+	m := &wasmb.Module{}
+	h := m.ImportFunc("env", "h", nil, nil)
+	st := m.AddFunc(nil, nil, nil, (&wasmb.Code{}).Loop(wasmb.BlockVoid).Call(h).Br(0).End().B, "")
+	m.Start = &st
+	cm, err := rt.CompileModule(bg, m.Encode())
+	if err != nil {
+		panic(err)
+	}
+	done := make(chan error, 1)
+	go func() {
+		_, err := rt.InstantiateModule(ctx, cm, wazero.NewModuleConfig().WithName(tape.Pick(t, []string{"", "s"})))
+		done <- err
+	}()
+	res.Sample = map[string]any{"cause": cause, "k": k}
+	res.Shape = sim.ShapeOf(fmt.Sprint(cause, k))
+	res.Logf("spin in the start-section function, cause %d at callback %d", cause, k)
+	res.Nontrivial = true
+	res.Stat("probe.guest_spinning_in_its_start_function", 1)
+	<-fired
+	select {
+	case ierr := <-done:
+		if ierr == nil {
+			res.Fail("wrong-error", "start function spinning, cause %d: InstantiateModule returned no error", cause)
+		}
+	case <-time.After(2 * time.Second):
+		if cause == 2 {
+			res.Known = append(res.Known, "start-function-not-stopped-by-runtime-close")
+		} else {
+			res.Fail("late-stop", "start function spinning, cause %d (0 cancel, 1 deadline): InstantiateModule has not returned 2 s after the context was done", cause)
+		}
+		abandon.Store(true)
+		select {
+		case <-done:
+		case <-time.After(5 * time.Second):
+			res.Fail("hang", "the abandoned instantiation did not end even through a panicking host function")
+		}
+	}
+	return
+}
